@@ -210,6 +210,8 @@ def frame_to_lean(fr):
         return {"crossJoin": {"l": fr["l"], "r": fr["r"]}}
     if op == "limit":
         return {"limit": {"src": fr["src"], "n": fr["n"]}}
+    if op == "distinct":
+        return {"distinct": {"src": fr["src"]}}
     raise ValueError(fr)
 
 
@@ -304,6 +306,8 @@ def show_case(c: dict) -> str:
             s = f"f{fr['l']}.crossJoin(f{fr['r']})"
         elif op == "limit":
             s = f"f{fr['src']}.limit({fr['n']})"
+        elif op == "distinct":
+            s = f"f{fr['src']}.{'dropDuplicates' if fr.get('dd') else 'distinct'}()"
         else:
             s = str(fr)
         out.append(f"f{i} = {s}")
@@ -455,6 +459,8 @@ def run_program(c: dict, session, F, make_base) -> t.Tuple[t.List[str], t.List[t
             df = frames[fr["l"]].crossJoin(frames[fr["r"]])
         elif op == "limit":
             df = frames[fr["src"]].limit(fr["n"])
+        elif op == "distinct":
+            df = frames[fr["src"]].dropDuplicates() if fr.get("dd") else frames[fr["src"]].distinct()
         else:
             raise ValueError(op)
         frames.append(df)
@@ -965,6 +971,90 @@ def star_cases(rng: random.Random, thorough: bool) -> t.List[dict]:
     return cases
 
 
+def operand_cases(rng: random.Random, thorough: bool) -> t.List[dict]:
+    """the LAST step of a join operand (either side) is any clause kind — distinct / dropDuplicates, a filter, a projection
+    (narrowing, computed, then distinct), a limit that keeps everything, a freeze (alias) under it — over data where that step
+    matters: duplicate rows that match the other side's keys, rows the filter removes, values the projection changes"""
+    cases: t.List[dict] = []
+    # (k, x) with exact duplicate rows and duplicate keys; the plain side has duplicate keys too
+    dup_rows = [[1, 10], [2, 20], [2, 20], [2, 25], [None, 30], [None, 30], [4, 40], [4, 40]]
+    plain = {"l": [[1, 100], [2, 200], [2, 250], [None, 300], [5, 500]], "r": [[2, 7], [2, 8], [4, 9], [None, 6], [3, 5]]}
+    hows = SPELLINGS if thorough else ONE_PER_KIND
+
+    def operand(prog: t.List[dict], col: str, last: str) -> int:
+        """append a frame over (k, col) whose last step is `last`; returns its index"""
+        prog.append(base(["k", col], [list(r) for r in dup_rows]))
+        b = len(prog) - 1
+
+        def add(fr):
+            prog.append(fr)
+            return len(prog) - 1
+
+        if last == "distinct":
+            return add({"op": "distinct", "src": b})
+        if last == "dropDuplicates":
+            return add({"op": "distinct", "src": b, "dd": True})
+        if last == "select-distinct":      # narrowing creates the duplicates
+            s_ = add({"op": "select", "src": b, "items": [["k", ref_name("k")]]})
+            return add({"op": "distinct", "src": s_})
+        if last == "where-distinct":
+            w = add({"op": "where", "src": b, "p": binop("gt", ref_name(col), lit(15))})
+            return add({"op": "distinct", "src": w})
+        if last == "distinct-select":      # a plain read of the distinct block, reordered
+            d_ = add({"op": "distinct", "src": b})
+            return add({"op": "select", "src": d_, "items": [[col, ref_name(col)], ["k", ref_name("k")]]})
+        if last == "alias-distinct":       # distinct directly over a frozen CTE
+            a_ = add({"op": "alias", "src": b, "a": "z" + col})
+            return add({"op": "distinct", "src": a_})
+        if last == "distinct-where":
+            d_ = add({"op": "distinct", "src": b})
+            return add({"op": "where", "src": d_, "p": binop("gt", ref_name(col), lit(15))})
+        if last == "where":
+            return add({"op": "where", "src": b, "p": binop("gt", ref_name(col), lit(15))})
+        if last == "computed":
+            return add({"op": "select", "src": b, "items": [["k", ref_name("k")], [col, binop("add", ref_name(col), lit(1))]]})
+        if last == "limit-all":
+            return add({"op": "limit", "src": b, "n": BIG})
+        if last == "distinct-limit-all":
+            d_ = add({"op": "distinct", "src": b})
+            return add({"op": "limit", "src": d_, "n": BIG})
+        raise ValueError(last)
+
+    lasts = ["distinct", "dropDuplicates", "select-distinct", "where-distinct", "distinct-select", "alias-distinct", "distinct-where", "where", "computed",
+             "limit-all", "distinct-limit-all"]
+    for side in ("r", "l", "both"):
+        for last in lasts:
+            for how in hows:
+                if not thorough and side == "both" and how not in ("inner", "left", "outer"):
+                    continue
+                for on_kind in ("name", "names", "expr", "and", "none"):
+                    if on_kind == "none" and how not in ("inner", "cross"):
+                        continue
+                    if not thorough and on_kind in ("names", "and") and (how not in ("inner", "right") or last not in ("distinct", "select-distinct", "where")):
+                        continue
+                    prog: t.List[dict] = []
+                    narrow = last == "select-distinct"
+                    if side in ("l", "both"):
+                        li = operand(prog, "x", last)
+                        lnon = None if narrow else "x"
+                    else:
+                        prog.append(base(["k", "v"], plain["l"]))
+                        li, lnon = len(prog) - 1, "v"
+                    if side in ("r", "both"):
+                        ri = operand(prog, "y", last)
+                        rnon = None if narrow else "y"
+                    else:
+                        prog.append(base(["k", "w"], plain["r"]))
+                        ri, rnon = len(prog) - 1, "w"
+                    keq = binop("eq", ref_df(li, "k"), ref_df(ri, "k"))
+                    if on_kind == "and" and (lnon is None or rnon is None):
+                        continue
+                    on = {"name": {"form": "name", "k": "k"}, "names": {"form": "names", "ks": ["k"]}, "expr": {"form": "expr", "e": keq}, "none": {"form": "none"},
+                          "and": {"form": "expr", "e": binop("and", keq, binop("lt", ref_df(li, lnon or "k"), ref_df(ri, rnon or "k")))}}[on_kind]
+                    cases.append({"frames": prog + [{"op": "join", "l": li, "r": ri, "on": on, "how": how}], "origin": f"operand:{side}:{last}:{how}:{on_kind}"})
+    return cases
+
+
 CTE_NAMES = ["src", "stg", "tmp"]
 
 
@@ -1082,6 +1172,7 @@ def cases_for(ctx: Ctx) -> t.List[dict]:
     cases += quoted_cases(ctx.rng, ctx.thorough)
     cases += star_cases(ctx.rng, ctx.thorough)
     cases += sql_cases(ctx.rng, ctx.thorough)
+    cases += operand_cases(ctx.rng, ctx.thorough)
     cases += random_cases(ctx.rng, 3000 if ctx.thorough else 250)
     return cases
 
@@ -1178,7 +1269,7 @@ def shrink(c: dict, failing: t.Callable[[dict], bool], rounds: int = 8) -> dict:
     for _ in range(rounds):
         cands = []
         fr = best["frames"]
-        if len(fr) > 1 and fr[-1]["op"] in ("select", "selectS", "where", "limit"):
+        if len(fr) > 1 and fr[-1]["op"] in ("select", "selectS", "where", "limit", "distinct"):
             cands.append(dict(best, frames=fr[:-1]))
         if fr[-1]["op"] in ("select", "selectS") and len(fr[-1]["items"]) > 1:
             for k in range(len(fr[-1]["items"])):
